@@ -32,7 +32,7 @@ CSV_INPUTS = ["ok", "ok_nan", "no_curves", "bad_kw", "none_unit", "ragged"]
 CSV_KW = [{}, {"units_loc": "[]"}, {"units_loc": "()"}, {"mnemonics": False, "units": False},
           {"lineterminator": "\r\n"}, {"units_loc": None}]
 CALLS = ["read_str", "read_path", "write_path", "tocsv_path", "write_stream", "tocsv_stream",
-         "write_stringio", "tocsv_stringio", "read_ctor", "read_func"]
+         "write_stringio", "tocsv_stringio", "read_ctor", "read_func", "write_bstream", "tocsv_bstream", "write_bytesio", "tocsv_bytesio"]
 
 IN = "/simfs/c0/in.las"
 OUT = "/simfs/c0/out.las"
@@ -205,10 +205,13 @@ class C20(Prop):
                 base = fs.seq
                 if call.endswith("_path"):
                     dst = OUT
-                elif call.endswith("_stream"):
+                elif call.endswith("_bytesio"):
+                    caller_stream = io.BytesIO()
+                    dst = caller_stream
+                elif call.endswith("stream"):
                     # the caller opens the stream before the call: not part of the fault window
                     saved, fs.faults = fs.faults, []
-                    caller_stream = fs.open_as_caller(OUT, "w", newline="")
+                    caller_stream = fs.open_as_caller(OUT, "wb" if call.endswith("_bstream") else "w", **({} if call.endswith("_bstream") else {"newline": ""}))
                     fs.faults = [dict(f, at=f["at"] + fs.seq) if "at" in f else f for f in saved]
                     dst = caller_stream
                 else:
@@ -221,6 +224,14 @@ class C20(Prop):
                         las.to_csv(dst, **sc["kw"])
                 except BaseException as e:      # noqa
                     exc = e
+            if caller_stream is not None and call.endswith(("_bstream", "_bytesio")):
+                # a binary handle is not what write()/to_csv() document; whatever they do with it, it stays the caller's:
+                # drop every other reference first (wrappers lasio may have created die here) and then look at the handle
+                import gc
+                exc_type = type(exc).__name__ if exc is not None else None
+                exc = None
+                gc.collect()
+                exc = exc_type and Exception(exc_type)
             # ---- oracle, evaluated while `exc` (traceback, frames, locals) is alive -------------
             leaked = fs.open_handles(owner="lasio")
             for h in leaked:
